@@ -47,6 +47,36 @@ def fresh_locals(fn_node):
     return (cands - bad) - params
 
 
+def derived_fresh_locals(fn_node):
+    """fresh_locals plus the locals that are only ever bound to parts of them (x = fresh[i], a, b = fresh[-1], x = derived[j]):
+    containers built by this activation, however they are named or reached"""
+    cur = set(fresh_locals(fn_node))
+    params = {a.arg for a in fn_node.args.args + fn_node.args.kwonlyargs + fn_node.args.posonlyargs}
+    loop_targets = set()
+    for n in ast.walk(fn_node):
+        if isinstance(n, (ast.For, ast.comprehension)):
+            loop_targets |= {t.id for t in ast.walk(n.target) if isinstance(t, ast.Name)}
+    changed = True
+    while changed:
+        changed = False
+        binds = {}
+        for n in ast.walk(fn_node):
+            if isinstance(n, ast.Assign) and len(n.targets) == 1:
+                t, v = n.targets[0], n.value
+                names = [t.id] if isinstance(t, ast.Name) else (
+                    [e.id for e in t.elts if isinstance(e, ast.Name)] if isinstance(t, (ast.Tuple, ast.List))
+                    and all(isinstance(e, ast.Name) for e in t.elts) else [])
+                ok = isinstance(v, ast.Subscript) and _root_name(v) in cur and not any(
+                    isinstance(x, ast.Call) for x in ast.walk(v))
+                for nm in names:
+                    binds.setdefault(nm, []).append(ok)
+        for nm, oks in binds.items():
+            if nm not in cur and nm not in params and nm not in loop_targets and all(oks):
+                cur.add(nm)
+                changed = True
+    return cur
+
+
 def writes_of(qualname, fn_node):
     out = []
     fresh = fresh_locals(fn_node)
